@@ -277,6 +277,21 @@ def gen_c15(tier, rng):
         which = rng.choice([1, 1, 2])
         fam = rng.choice(["plan", "plan", "planspec"])
         cases.append((fam, [size, bs, rng.randrange(0, 12), which] + pts))
+    # very large, unbalanced trees (up to 2^62 bytes): narrow queries at the end and around the spine's joints
+    for _ in range(80 if tier == "quick" else 1500):
+        a_ = rng.randrange(34, 62)
+        size = (1 << a_) + sum(1 << rng.randrange(10, a_) for _ in range(rng.randrange(0, 3))) + rng.choice([0, 1, 1024, 1025])
+        bs = rng.randrange(0, 5)
+        n = nchunks(size)
+        joint = (1 << (a_ - 10))
+        p0 = rng.choice([n - 1, n - 2, joint, joint - 1, joint + 1, n - rng.randrange(1, 1 << 20)])
+        p0 = max(0, p0)
+        pts = sorted({p0, p0 + rng.randrange(1, 3)}) if rng.random() < 0.7 else [p0]
+        if len(pts) == 1 and pts[0] < n - 40:
+            pts = [pts[0], pts[0] + 1]
+        which = rng.choice([1, 2])
+        fam = rng.choice(["plan", "plan", "planspec"])
+        cases.append((fam, [size, bs, rng.randrange(0, 6), which] + pts))
     return cases
 
 
@@ -358,7 +373,7 @@ PROPS["C15"] = Prop(
     [F_PLAN, F_PLANSPEC], gen_c15,
     "plan: every byte-size class up to 5 (quick) / 8 (thorough) chunks x bs 0..3 x {post-order plan, pre-order plan with "
     "min_level 0..5, response plan} x every subset of boundaries in 0..nchunks+2 (exhaustive up to 4/6 chunks, random beyond), "
-    "plus sampled trees up to 2^40 bytes with sparse queries; planspec: the same observations compared with the recursive "
+    "plus sampled trees up to 2^40 bytes with sparse queries and very large unbalanced trees (up to 2^62 bytes) with narrow queries at the end and around the joints of the right spine; planspec: the same observations compared with the recursive "
     "specification Spec/PlanSpec.v. non-trivial = plan with more than one item",
     assumptions=["size <= 2^63, bs <= 10, min_level <= 63, boundaries strictly sorted < 2^64"],
 )
@@ -853,6 +868,16 @@ def gen_c06(tier, rng):
                     v = rng.randrange(0, 4)
                     ok = rng.randrange(0, 5)
                     cases.append(("validate", [0 if size else 0, seed(rng), size, bs, v, ok, len(c) // 3] + c + q))
+                # a node-keyed store from which some pairs are missing (load answers None): nothing below a missing pair is reported
+                nslots = oblen // 64
+                if nslots >= 1:
+                    for _ in range(2):
+                        miss = sorted(set(rng.randrange(0, nslots) for _ in range(rng.randrange(1, 3))))
+                        c = []
+                        for m in miss:
+                            c += [7, m, 1]
+                        for v in range(0, 4):
+                            cases.append(("validate", [0, seed(rng), size, bs, v, 5, len(miss)] + c + q))
                 # partially filled data file (shorter than the blob), with contents that repeat from group to group
                 if size > 1024:
                     for _ in range(2):
@@ -1488,7 +1513,7 @@ PROPS["C01"] = Prop(
     assumptions=_c01.assumptions)
 _c09 = PROPS["C09"]
 PROPS["C09"] = Prop(
-    [F_DECODE, F_POSTSTEP9], lambda tier, rng: gen_c09(tier, rng) + [("poststep9", a) for (_, a) in gen_poststep(tier, rng)[::2]],
+    [F_DECODE, F_POSTSTEP9], lambda tier, rng: gen_c09(tier, rng) + [("poststep9", a) for i, (_, a) in enumerate(gen_poststep(tier, rng)) if i % 4 < 2],
     _c09.rule + " poststep: truncated / altered streams with the decoder polled again after the error (panic observable).",
     assumptions=_c09.assumptions)
 _c04b = PROPS["C04"]
@@ -1549,6 +1574,8 @@ def gen_agree_val(tier, rng):
                 cors.append([4, rng.randrange(0, size), 0])
                 for c in cors:
                     cases.append(("agree_val", [rng.choice([0, 1, 2]), seed(rng), size, bs, 0, rng.randrange(0, 5), len(c) // 3] + c + q))
+                if oblen >= 64:
+                    cases.append(("agree_val", [0, seed(rng), size, bs, 0, 5, 1, 7, rng.randrange(0, oblen // 64), 1] + q))
                 # a partially written outboard file: shorter than the full outboard (io-backed stores only)
                 if oblen >= 128:
                     for cut in (64 * rng.randrange(0, oblen // 64), rng.randrange(1, oblen)):
